@@ -348,6 +348,11 @@ class SupvisorsStateModes:
         """ The event is fired on change by the remote Supvisors instance. """
         # ignore if sent by the local Supvisors instance because information may be lost in the gap
         if identifier != self.local_identifier:
+            # NOTE: the state and modes of a STOPPED Supvisors instance are reset and must stay so until its hand-shake
+            #       (it may have published before being lost, and nothing would reset its status afterwards)
+            if self.local_state_modes.instance_states.get(identifier) == SupvisorsInstanceStates.STOPPED:
+                self.logger.debug(f'SupvisorsStateModes.on_instance_state_event: {identifier} is STOPPED')
+                return
             state_modes = self.instance_state_modes[identifier]
             # NOTE: the state and modes got from the hand-shake and those published do not follow the same path,
             #       so an older status shall not supersede a more recent one (nothing would correct it afterwards)
